@@ -142,7 +142,7 @@ type program struct {
 }
 
 var ops = []string{"xmss.Verify", "xmss.Verify.bad", "xmss.Address", "xmss.IsValidAddress", "xmss.LegacyAddress", "xmss.IsValidLegacy", "descriptor", "mnemonic.enc48", "mnemonic.dec48", "mnemonic.enc51", "mnemonic.dec51", "mnemonic.bad",
-	"dil.Verify", "dil.Verify.bad", "dil.Verify.malformed", "dil.Open", "dil.Address", "dil.IsValidAddress", "dil.Sign.shared", "dil.Seal.shared", "dil.getters.shared", "xmss.private.Sign", "xmss.private.SetIndex", "xmss.private.getters", "xmss.VerifyW", "xmss.VerifyW", "xmss.helpers", "xmss.Verify.long", "xmss.IsValidLegacy.bad", "dil.Verify.lookalike", "dil.Sign.reusedbuf", "xmss.Verify.inbatch", "dil.Open.wrongkey-then-right"}
+	"dil.Verify", "dil.Verify.bad", "dil.Verify.malformed", "dil.Open", "dil.Address", "dil.IsValidAddress", "dil.Sign.shared", "dil.Seal.shared", "dil.getters.shared", "xmss.private.Sign", "xmss.private.SetIndex", "xmss.private.getters", "xmss.VerifyW", "xmss.VerifyW", "xmss.helpers", "xmss.Verify.long", "xmss.IsValidLegacy.bad", "dil.Verify.lookalike", "dil.Sign.reusedbuf", "xmss.Verify.inbatch", "dil.Open.wrongkey-then-right", "fresh-wallet"}
 
 // Winternitz parameters presented to VerifyWithCustomWOTSParamW: the three supported ones and, per size class,
 // one value that the parameter validation also lets through (truncated log2): 17 ~ 16, 5 ~ 4, 300 ~ 256.
@@ -437,6 +437,28 @@ func execCall(p *pools, c callSpec, priv *privKey) (res string) {
 	case "dil.getters.shared":
 		pk, sk := p.d[a].GetPK(), p.d[a].GetSK()
 		return hex.EncodeToString(pk[:64]) + hex.EncodeToString(sk[:64])
+	case "fresh-wallet":
+		// a wallet from the library's own randomness (XMSS h=4 or Dilithium): the answer is its seed. Not comparable
+		// with a re-run; what must hold is that no two wallets of one program share a seed and that the wallet is
+		// the one its own seed regenerates
+		if c.B%2 == 0 {
+			x := xmss.NewXMSSFromHeight(4, pu.Hashes[a])
+			sd := x.GetSeed()
+			if y := xmss.NewXMSSFromSeed(sd, 4, pu.Hashes[a], common.SHA256_2X); y.GetPK() != x.GetPK() {
+				return "WRONG-PK fresh XMSS wallet is not the one its seed regenerates"
+			}
+			return "fresh:" + hex.EncodeToString(sd[:])
+		}
+		d, err := dilithium.New()
+		if err != nil {
+			return "error " + err.Error()
+		}
+		sd := d.GetSeed()
+		y, err := dilithium.NewDilithiumFromSeed(sd)
+		if err != nil || y.GetPK() != d.GetPK() {
+			return "WRONG-PK fresh Dilithium wallet is not the one its seed regenerates"
+		}
+		return "fresh:" + hex.EncodeToString(sd[:])
 	case "xmss.private.Sign":
 		idx := priv.x.GetIndex()
 		m := []byte{byte(c.B), byte(idx)}
@@ -495,6 +517,29 @@ func runProgram(r *ev.Recorder, pg *program) (string, string) {
 	}
 	close(start)
 	wg.Wait()
+	seeds := map[string][2]int{}
+	noteFresh := func(res string, g, i int) (string, string) {
+		if !strings.HasPrefix(res, "fresh:") {
+			return "", ""
+		}
+		for k := 0; k+16 <= len(res)-6; k += 16 {
+			// any aligned 8-byte window in common is as good as a whole seed in common (a shared, unsynchronised
+			// buffer hands the same bytes to two readers)
+			w := res[6+k : 6+k+16]
+			if at, dup := seeds[fmt.Sprintf("%d:%s", k, w)]; dup && (at[0] != g || at[1] != i) {
+				return "fresh-wallets-share-seed-bytes", fmt.Sprintf("goroutine %d call %d and goroutine %d call %d created wallets whose seeds share bytes %d..%d (%s)", at[0], at[1], g, i, k/2, k/2+7, w)
+			}
+			seeds[fmt.Sprintf("%d:%s", k, w)] = [2]int{g, i}
+		}
+		return "", ""
+	}
+	for g := range res1 {
+		for i, res := range res1[g] {
+			if k, m := noteFresh(res, g, i); k != "" {
+				return k, m
+			}
+		}
+	}
 	// phases 2 and 3: the same calls sequentially, in two different interleavings that keep each
 	// goroutine's own order (private XMSS keys are stateful), with fresh private keys
 	for phase := 2; phase <= 3; phase++ {
@@ -521,6 +566,15 @@ func runProgram(r *ev.Recorder, pg *program) (string, string) {
 					c := pg.Threads[g][i]
 					got := execCall(p, c, privs[g])
 					r.Eval(1)
+					if c.Op == "fresh-wallet" {
+						if strings.HasPrefix(got, "fresh:") && strings.HasPrefix(res1[g][i], "fresh:") {
+							if k, m := noteFresh(got, 1000*phase+g, i); k != "" {
+								return k, m
+							}
+							continue
+						}
+						return "call-fails/" + c.Op, fmt.Sprintf("goroutine %d call %d (%s): concurrent result %.80q, sequential result %.80q", g, i, c.Op, res1[g][i], got)
+					}
 					if got != res1[g][i] {
 						return "concurrent-vs-sequential/" + c.Op, fmt.Sprintf("goroutine %d call %d (%s a=%d b=%d): concurrent result %.80q, sequential (phase %d) result %.80q", g, i, c.Op, c.A, c.B, res1[g][i], phase, got)
 					}
@@ -539,7 +593,7 @@ func runProgram(r *ev.Recorder, pg *program) (string, string) {
 
 func TestPrograms(t *testing.T) {
 	r := ev.New(t, prop, "TestPrograms")
-	r.Rule("rapid draws a concurrent PROGRAM: 2..16 goroutines x 5..40 calls from {xmss.Verify valid/corrupted, address derivation/validation incl. legacy, descriptor encode/decode, mnemonic encode/decode/refusal, dilithium Verify/Open/address, Sign/Seal/getters on one of three SHARED Dilithium keys, Sign/SetIndex/getters on a goroutine-PRIVATE XMSS key} over pools of 3 keys per scheme, optional Gosched between calls, GOMAXPROCS in {1,2,4,16}; run under -race with all goroutines released by a barrier, then re-run sequentially in two interleavings; each shard is a fresh process that begins with a first-use storm (every operation family first used from 8 goroutines at once; odd shards start with verifications under unusual Winternitz parameters) and alternation storms (8 goroutines switching pool entries every round); results without a reference model are compared with the same call run ALONE in a fresh child process; oracle: no race report, concurrent result == sequential results == reference model answer; non-trivial = a program in which >= 2 goroutines call the same operation family on different pool entries or share a Dilithium key, distinct by program")
+	r.Rule("rapid draws a concurrent PROGRAM: 2..16 goroutines x 5..40 calls from {xmss.Verify valid/corrupted, address derivation/validation incl. legacy, descriptor encode/decode, mnemonic encode/decode/refusal, dilithium Verify/Open/address, Sign/Seal/getters on one of three SHARED Dilithium keys, Sign/SetIndex/getters on a goroutine-PRIVATE XMSS key, creation of fresh wallets from the library's own randomness (no two may share seed bytes, each must be the wallet its seed regenerates)} over pools of 3 keys per scheme, optional Gosched between calls, GOMAXPROCS in {1,2,4,16}; run under -race with all goroutines released by a barrier, then re-run sequentially in two interleavings; each shard is a fresh process that begins with a first-use storm (every operation family first used from 8 goroutines at once; odd shards start with verifications under unusual Winternitz parameters) and alternation storms (8 goroutines switching pool entries every round); results without a reference model are compared with the same call run ALONE in a fresh child process; oracle: no race report, concurrent result == sequential results == reference model answer; non-trivial = a program in which >= 2 goroutines call the same operation family on different pool entries or share a Dilithium key, distinct by program")
 	r.Assume("schedules are sampled, not enumerated: the harness does not own the Go scheduler; the race detector reports unsynchronised conflicting accesses whenever both occur in a run without a happens-before edge")
 	p := getPools()
 	// first-use storm: in this fresh process the very first use of every operation family happens from 8
@@ -603,6 +657,23 @@ func TestPrograms(t *testing.T) {
 			r.Eval(1)
 			if want := expected(p, specs[g]); want != "" && got[g] != want {
 				r.Check(t, false, "first-use/"+op, &program{Procs: runtime.GOMAXPROCS(0), Threads: [][]callSpec{{specs[g]}}}, "first concurrent use of %s: result %.80q, reference %.80q", op, got[g], want)
+			}
+		}
+		if op == "fresh-wallet" {
+			// eight wallets created at the same instant: no two may share seed bytes, none may fail
+			win := map[string]int{}
+			for g := 0; g < G; g++ {
+				res := got[g]
+				if !strings.HasPrefix(res, "fresh:") {
+					r.Check(t, false, "first-use/fresh-wallet-fails", &program{Procs: runtime.GOMAXPROCS(0), Threads: [][]callSpec{{specs[g]}}}, "creating a fresh wallet concurrently with 7 others: %.120q", res)
+				}
+				for k := 0; k+16 <= len(res)-6; k += 16 {
+					w := fmt.Sprintf("%d:%s", k, res[6+k:6+k+16])
+					if og, dup := win[w]; dup {
+						r.Check(t, false, "fresh-wallets-share-seed-bytes", &program{Procs: runtime.GOMAXPROCS(0), Threads: [][]callSpec{{specs[og]}, {specs[g]}}}, "two of eight wallets created at the same instant share seed bytes %d..%d (%s)", k/2, k/2+7, w)
+					}
+					win[w] = g
+				}
 			}
 		}
 		r.Count("first_use_storms", 1)
